@@ -369,13 +369,18 @@ class Scenario:
         if cap:
             return self._rec(name, 'uf', 'sat', time.time() - t, confirmed=True, replay=cap, note='recorded computations differ; not replayed individually (scenario already has replayed violations)')
         rep = None
-        if not self.dag.poisons_of([na, nb]):
+        self._uf_attempts = getattr(self, '_uf_attempts', 0) + 1
+        if self._uf_attempts > 12:
+            # many structurally different results in one scenario and none of the first ones reproduced natively: do not spend
+            # solver / replay time on each of them (the run is failing anyway: unconfirmed differences exit 1)
+            return self._rec(name, 'uf', 'sat', time.time() - t, confirmed=False, note='recorded computations differ structurally; not replayed (per-scenario cap)')
+        if not self.dag.poisons_of([na, nb]) and self._uf_attempts <= 2 and len(self.dag.slice([na, nb])) < 4000:
             # the two recorded computations differ: ask the Real interpretation for an input that separates them
             try:
                 va, vb = self.enc.node(na), self.enc.node(nb)
                 fs = self.base(True) + [self.enc.ne_formula(va, vb)]
                 pre = self.witness_search(fs[:-1], va, vb, tries=3)
-                r = R.Result(name, 'sat', 0.0, model=pre) if pre is not None else R.solve(name, fs, min(self.timeout, 30))
+                r = R.Result(name, 'sat', 0.0, model=pre) if pre is not None else R.solve(name, fs, min(self.timeout, 8))
                 self.queries += 1
                 if r.status == 'sat':
                     pt = {k: float(v) for k, v in self.point_from_model(r.model).items()}
@@ -403,7 +408,8 @@ class Scenario:
         base_sh = dict(self.script.shadows)
         if self.shadow_override:
             base_sh.update(self.shadow_override)
-        for trial in range(4 if first_point is None else 1):
+        ntr = 24 if first_point is None else 1
+        for trial in range(ntr):
             pt = {}
             for nm, sh in base_sh.items():
                 if first_point is not None:
@@ -423,7 +429,7 @@ class Scenario:
                 return {'confirmed': True, 'a': a, 'b': b, 'point': pt,
                         'replay': self.write_replay(name, {'kind': 'uf', 'out_a': out_a, 'out_b': out_b, 'shadows': pt,
                                                            'decisions': self.decisions})}
-        return {'confirmed': False, 'note': 'recorded computations differ structurally but gave identical doubles on 4 inputs'}
+        return {'confirmed': False, 'note': 'recorded computations differ structurally but gave identical doubles on %d inputs' % ntr}
 
     # ------------------------------------------------------------------ concrete ints
     def int_eq(self, name, key, expected):
